@@ -106,7 +106,7 @@ func runChain(r *vk.Run) {
 	var order orderStats
 	execs, replicas, warm, twins, hits, dupsCompared := 0, 0, 0, 0, 0, 0
 	var slow int64
-	var notExec []string
+	var notExec, harness []string
 	results := make([]string, len(cases))
 	t0 := time.Now()
 	done := r.RunIsolated(len(cases), vk.IsoOpts{CaseTimeout: 240 * time.Second, MemKB: 8 * 1024 * 1024}, func(i int, raw json.RawMessage, fatal string) {
@@ -118,6 +118,10 @@ func runChain(r *vk.Run) {
 		var res caseResult
 		if err := json.Unmarshal(raw, &res); err != nil {
 			vk.Fatalf("case result: %v", err)
+		}
+		if res.Harness != "" {
+			harness = append(harness, res.Name+": "+res.Harness)
+			return
 		}
 		for _, v := range res.Viol {
 			r.Violation(v.Key, res.Name+": "+v.What, map[string]interface{}{"state": c.st, "letters": c.letters, "case": i, "name": res.Name})
@@ -176,6 +180,14 @@ func runChain(r *vk.Run) {
 			r.Sample(map[string]interface{}{"case": res.Name, "outcome": res.Outcome, "digest": res.Digest, "replicas": res.Replicas, "order": res.Order})
 		}
 	})
+	if len(harness) > 0 {
+		sort.Strings(harness)
+		if r.NViolations() == 0 {
+			vk.Fatalf("chain: %d cases ended in a harness error, first: %s", len(harness), harness[0])
+		}
+		// the code under test already diverges; the fixture may not even reach its prior states any more
+		r.Capped(fmt.Sprintf("block space: %d cases could not be set up (first: %s)", len(harness), harness[0]))
+	}
 	if done < len(cases) {
 		r.Capped(fmt.Sprintf("block space: %d of %d cases executed before the deadline", done, len(cases)))
 	}
@@ -238,7 +250,7 @@ func runChain(r *vk.Run) {
 		r.Note("outside the statement (auxiliary data): the balance-record journal saved by CommitBlock differs from the baseline validator's on: %s. A node that executed another proposal after the one it commits stores the OTHER block's transfer journal (types.BlockBalanceRecordsInstance is refilled by every processBlock, CommitBlock saves whatever it holds); state, receipts and all hashes agree.", strings.Join(l, ", "))
 		r.Set("aux_balance_record_divergence", a.auxDiff)
 	}
-	if done == len(cases) {
+	if done == len(cases) && r.NViolations() == 0 {
 		if a.outcome["accepted"] == 0 || a.outcome["rejected"] == 0 || len(a.digests) < a.outcome["accepted"]/8 {
 			vk.Fatalf("chain: vacuous: outcomes %v, %d distinct digests", a.outcome, len(a.digests))
 		}
